@@ -776,8 +776,15 @@ func (ea *functionAnalysisState) invokeMethodDirectly(instr *ssa.Call, g *Escape
 		// Record our use of this summary for recursion-covergence purposes
 		summary.RecordUse(summaryUse{ea, instr})
 		if lang.IsNillableType(callee.Params[0].Type()) {
-			// Add indirection for pointer types
-			tmp := g.nodes.NewNode(KindVar, "tmp", types.NewPointer(callee.Params[0].Type()))
+			// Add indirection for pointer types. The temporary must be the same node every time this
+			// call is (re-)analyzed: a fresh node per application makes the transfer function
+			// non-monotone and prevents the enclosing block from ever converging inside a loop.
+			key := invokeReceiverTmp{instr, callee, receiver}
+			tmp, ok := g.nodes.tempNodes[key]
+			if !ok {
+				tmp = g.nodes.NewNode(KindVar, "tmp", types.NewPointer(callee.Params[0].Type()))
+				g.nodes.tempNodes[key] = tmp
+			}
 			g.AddEdge(tmp, receiver, EdgeInternal)
 			pre := g.Clone()
 			g.Call(pre, tmp, append([]*Node{tmp}, args...), nil, rets, summary.finalGraph)
@@ -793,6 +800,14 @@ func (ea *functionAnalysisState) invokeMethodDirectly(instr *ssa.Call, g *Escape
 	} else {
 		g.CallUnknown(append([]*Node{receiver}, args...), rets, callee.String())
 	}
+}
+
+// invokeReceiverTmp keys the temporary receiver variable used by invokeMethodDirectly, so that
+// a single node is shared by all (re-)analyses of the same call, callee and receiver.
+type invokeReceiverTmp struct {
+	instr    ssa.Instruction
+	callee   *ssa.Function
+	receiver *Node
 }
 
 type closureFreeVarLoad struct {
